@@ -56,7 +56,7 @@ CLAIMED.update({
 
 CLAIMED.update({
  "C04": dict(
-   text="Totality and determinism of decoding decided from the tables and the shape of amd/insts: the format table (mask/encoding consistency, overlap and specificity order, opcode fields) which makes format matching independent of map order and sort stability; the decode table of about 1000 rows evaluated from constant expressions (duplicates, field widths, VOP3b routing, dispatch coverage); every getOperand call site against the computed set of defined operand codes using an interval analysis of the code argument; per-format bounds of every buffer access; size accounting incl. the single literal dword shared by two literal operands and an opcode-specific size step for every mnemonic that carries a 32-bit constant; immutability of the decode tables on the decode path; register families of getOperand covered completely; the single-bit helper; a nil test before a lazily created decode table is dereferenced; destination fields that cannot hold constants; the key of every decode cache covering all arguments that select the bytes read (address and process); error handling at the three callers; every field extraction of the decode functions and the format table compared with the microcode formats of the ISA manuals transcribed as (format, field) -> (dword, bit range) tables; agreement of the mnemonics of the two encodings of each vector instruction (VOP2/VOP1/VOPC row versus its VOP3 row). The inverse property decode(encode(d)) = d is value level and not decided.",
+   text="Totality and determinism of decoding decided from the tables and the shape of amd/insts: the format table (mask/encoding consistency, overlap and specificity order, opcode fields) which makes format matching independent of map order and sort stability; the decode table of about 1000 rows evaluated from constant expressions (duplicates, field widths, VOP3b routing, dispatch coverage); every getOperand call site against the computed set of defined operand codes using an interval analysis of the code argument; per-format bounds of every buffer access; size accounting incl. the single literal dword shared by two literal operands and an opcode-specific size step for every mnemonic that carries a 32-bit constant; immutability of the decode tables on the decode path; register families of getOperand covered completely; the single-bit helper; a nil test before a lazily created decode table is dereferenced; destination fields that cannot hold constants; the key of every decode cache covering all arguments that select the bytes read (address and process); error handling at the three callers; every field extraction of the decode functions and the format table compared with the microcode formats of the ISA manuals transcribed as (format, field) -> (dword, bit range) tables; agreement of the mnemonics of the two encodings of each vector instruction (VOP2/VOP1/VOPC row versus its VOP3 row); the bit-extraction helpers decided by bit provenance for every constant range used. The inverse property decode(encode(d)) = d is value level and not decided.",
    ref="4/C04", technique="constant-table evaluation from the type-checked syntax (TABLE), interval analysis on SSA (INTERVAL), dominance cuts (GUARD), decision-table evaluation of getOperand's switch",
    note="opcode numbers versus the ISA manuals are not compared (only the two encodings of one instruction with each other); the transcribed field layouts are part of the trusted base; ten genuine defects (dropped getOperand errors, unguarded buf[:4], literal dword counted twice in SOP2/SOPC, ttmp11 rejected, GDS bit taken from bit 4, s_setreg_imm32_b32 sized 4 bytes, constants accepted as destinations, v_madak/v_madmk with a literal sized 12 bytes, emulator decode cache keyed by address only, SDWA S0 flag read from the wrong bit) found and repaired by fix: commits"),
 })
@@ -77,7 +77,7 @@ CLAIMED.update({
 
 CLAIMED.update({
  "C03": dict(
-   text="ISA rules that are uniform across opcodes and visible in the code shape, for both ALUs and all paths: dispatch integrity of every opcode switch (one handler per case, panicking default, listed functional no-ops only), ALL-OR-NONE of condition-code writes in every handler, shift-amount intervals in every handler of a shift instruction (handlers tied to instruction names through decode table, dispatch switch and callee), destination-only operand writes and PC/EXEC writers restricted by instruction name, carry predicates of carry-in instructions evaluated in 64 bits, every float-to-integer conversion of an operand value reached only after range tests on the floating-point value (and no clamp that the operand's type makes dead), no result variable left at its zero value by an open if/else-if chain; every compare handler decided exactly on the ordering domain {less, equal, greater, unordered} against the truth table its mnemonic prescribes, with kind / signedness / width of the compared values; LDS handlers address ADDR plus their (scaled) offset field; bitwise handlers decided exactly by per-bit truth tables; operand selection of integer min/max, polarity of cndmask/cselect/cmov and of conditional branches with their target formula, operand order of sub/subrev and shift/shiftrev pairs; sources read before destinations are written; bits 32..63 of a raw operand never decide the result of a 32-bit instruction; SCC of signed add/sub from the signed overflow condition; IEEE bit patterns never used as numbers; float min / max decided on ranks and NaN operands; the SDWA select helpers decided bit by bit (origin of every result bit for every select constant and dst_unused mode) and SDWA-encoded instructions never executed as plain ones; VOP3 abs / neg modifiers applied to every data source of the instructions that accept them; every decoded field of an instruction consulted by execution or exempt with a reason; no dispatch case without a decode row. Bit-exact arithmetic conformance needs an executable ISA transcription and is not decided.",
+   text="ISA rules that are uniform across opcodes and visible in the code shape, for both ALUs and all paths: dispatch integrity of every opcode switch (one handler per case, panicking default, listed functional no-ops only), ALL-OR-NONE of condition-code writes in every handler, shift-amount intervals in every handler of a shift instruction (handlers tied to instruction names through decode table, dispatch switch and callee), destination-only operand writes and PC/EXEC writers restricted by instruction name, carry predicates of carry-in instructions evaluated in 64 bits, every float-to-integer conversion of an operand value reached only after range tests on the floating-point value (and no clamp that the operand's type makes dead), no result variable left at its zero value by an open if/else-if chain; every compare handler decided exactly on the ordering domain {less, equal, greater, unordered} against the truth table its mnemonic prescribes, with kind / signedness / width of the compared values; LDS handlers address ADDR plus their (scaled) offset field; bitwise handlers decided exactly by per-bit truth tables; operand selection of integer min/max, polarity of cndmask/cselect/cmov and of conditional branches with their target formula, operand order of sub/subrev and shift/shiftrev pairs; sources read before destinations are written; bits 32..63 of a raw operand never decide the result of a 32-bit instruction; SCC of signed add/sub from the signed overflow condition; IEEE bit patterns never used as numbers; float min / max decided on ranks and NaN operands; the SDWA select helpers decided bit by bit (origin of every result bit for every select constant and dst_unused mode) and SDWA-encoded instructions never executed as plain ones; VOP3 abs / neg modifiers applied to every data source of the instructions that accept them; every decoded field of an instruction consulted by execution or exempt with a reason; no dispatch case without a decode row; no ALU helper ignoring a parameter. Bit-exact arithmetic conformance needs an executable ISA transcription and is not decided.",
    ref="4/C03", technique="constant-table evaluation (decode table and dispatch switches), must-pass path analysis (ALL-OR-NONE), interval analysis on SSA (INTERVAL), who-may-write, finite-domain evaluation of comparison skeletons (ORDER-DOMAIN), bit-provenance evaluation of field helpers (BITPROV), value provenance of addresses",
    note="arithmetic, rounding, saturation and comparison semantics of individual opcodes are not decided; defect families found and repaired by fix: commits: one-sided SCC, unmasked shifts, v_cvt_i32_f32 saturation tested after conversion, v_div_scale_f64 default result and denormal classification, compare handlers (lg/nlg NaN, u32 width, CDNA3 ge_f32_e64), ds_read_b64 offset, 20 handlers of 32-bit instructions reading 64 operand bits, s_addc_u32 carry, s_cmpk compares, float min/max with a NaN operand, SDWA dst_unused and SDWA add, SDWA silently ignored by 36 VOP2 handlers, v_cndmask_b32_e64 / v_div_scale ignoring abs and neg, clamp and GDS bits dropped, CDNA3 v_div_scale_f64 filed under the wrong opcode; known findings pinned by upstream tests: GCN3 s_add_i32 SCC, v_div_fixup_f64 using bit patterns as numbers (14 sites)"),
 })
@@ -112,9 +112,9 @@ CLAIMED.update({
 
 CLAIMED.update({
  "C02": dict(
-   text="Seven necessary conditions of functional transparency of timing mode, decided structurally: architectural state of timing wavefronts is changed only through the shared emulation ALU (who-may-call with a frozen allow-list; ALU obtained only from emu.NewALU or the injected factory); the initial-register code of the two modes is reduced to comparable summaries (enable flag, bytes reserved, value; lane-id registers incl. the V5 packed form); the SMEM and FLAT opcode sets of both ALUs and of the timing units agree, including, for sub-dword loads, the number of memory bytes that reach the register and their sign/zero extension in the timing write-back versus the emulation handler; cache flushes precede copies that touch dirty buffers; the timing-only outstanding-access counters are decremented only through the last-piece test of a memory return (in the function or all its callers); the pieces of a split scalar load land in consecutive registers; the kernel-launch path reaches a flush of the non-coherent per-CU L1 caches. Equality of final memory and PC traces is a runtime quantity and is not decided.",
+   text="Eight necessary conditions of functional transparency of timing mode, decided structurally: architectural state of timing wavefronts is changed only through the shared emulation ALU (who-may-call with a frozen allow-list; ALU obtained only from emu.NewALU or the injected factory); the initial-register code of the two modes is reduced to comparable summaries (enable flag, bytes reserved, value; lane-id registers incl. the V5 packed form); the SMEM and FLAT opcode sets of both ALUs and of the timing units agree, including, for sub-dword loads, the number of memory bytes that reach the register and their sign/zero extension in the timing write-back versus the emulation handler; cache flushes precede copies that touch dirty buffers; the timing-only outstanding-access counters are decremented only through the last-piece test of a memory return (in the function or all its callers); the pieces of a split scalar load land in consecutive registers; the kernel-launch path reaches a flush of the non-coherent per-CU L1 caches; a platform that installs the CDNA3 ALU also configures its decoder for CDNA3 and the timing compute unit installs the decoder it is given. Equality of final memory and PC traces is a runtime quantity and is not decided.",
    ref="4/C02", technique="who-may-call on SSA, summaries of sibling functions from the type-checked syntax (SIBLINGS), opcode-set comparison of dispatch switches (TABLE), must-pass path analysis",
-   note="coalescer and write-back value correctness, scoreboard hazards, caches and DRAM are not decided; four defects (s_load_dwordx16, flat_load_sbyte and flat_load_ushort write-back, V5 packed ids in timing) repaired by fix: commits; two SGPR-reservation divergences and the missing L1 flush between kernels (bitonicsort fails in timing mode) recorded as known findings"),
+   note="coalescer and write-back value correctness, scoreboard hazards, caches and DRAM are not decided; five defects (s_load_dwordx16, flat_load_sbyte and flat_load_ushort write-back, V5 packed ids in timing, MI300A timing platform decoding with GCN3 rules) repaired by fix: commits; two SGPR-reservation divergences and the missing L1 flush between kernels (bitonicsort fails in timing mode) recorded as known findings"),
 })
 
 CLAIMED.update({
